@@ -290,6 +290,45 @@ func H_C03_merge() {
 	vReach("c03-merge")
 }
 
+// H_C03_large: a result that spans several response messages (the first row alone exceeds the
+// 1024-chunk batch): every requested row exactly once, in order, one commit per row, limit honoured.
+func H_C03_large() {
+	s := vNewServer(vChoice("engine", 0, vBound("engines", 0, 1)), func() bigtable.Timestamp { return 0 })
+	vCreateTable(s, "f")
+	big := &btpb.Column{Qualifier: []byte("q")}
+	for i := 0; i < 1025; i++ {
+		big.Cells = append(big.Cells, &btpb.Cell{TimestampMicros: int64(2000000 - 1000*i), Value: []byte("x")})
+	}
+	tbl := s.tables[vTable]
+	tbl.rows.ReplaceOrInsert(&btpb.Row{Key: []byte("a"), Families: []*btpb.Family{{Name: "f", Columns: []*btpb.Column{big}}}})
+	keys := c01Keys("key", 2, 1)
+	for _, k := range keys {
+		vAssume(vBytesCmp([]byte("a"), k) < 0)
+		tbl.rows.ReplaceOrInsert(c17Row(k, []byte("v")))
+	}
+	limit := int64(vChoice("rows_limit", 0, 3))
+	st := &vReadStream{}
+	err := s.ReadRows(&btpb.ReadRowsRequest{TableName: vTable, RowsLimit: limit}, st)
+	vAssert(err == nil, "large:ok")
+	vAssert(len(st.msgs) >= 2 || limit == 1, "large:several-messages")
+	rows, ok := vDecode(st.msgs)
+	vAssert(ok, "large:stream-wellformed")
+	want := 3
+	if limit > 0 && int(limit) < want {
+		want = int(limit)
+	}
+	vAssert(len(rows) == want, "large:row-count")
+	if len(rows) != want {
+		return
+	}
+	vAssert(string(rows[0].key) == "a" && len(rows[0].cells) == 1025, "large:first-row-complete")
+	for j := 1; j < want; j++ {
+		vAssert(vBytesEq(rows[j].key, keys[j-1]), "large:rows-in-key-order-once")
+	}
+	vReach("c03-large")
+}
+
 func init() {
 	vHarnesses["H_C03_merge"] = H_C03_merge
+	vHarnesses["H_C03_large"] = H_C03_large
 }
